@@ -532,8 +532,39 @@ def run(chk, repo, tier):
     if smf is None:
         raise AnalysisError('LocalDirectoryContext.store_message not found')
     str_params = {a.arg for a in smf.node.args.args if a.annotation is not None and unparse(a.annotation) == 'str'}
-    helpers = {n.name for n in ast.walk(smf.node) if isinstance(n, ast.FunctionDef) and n is not smf.node}
-    helpers |= {m_ for m_ in lc.methods if 'mangle' in m_ or 'quote' in m_ or 'escape' in m_}
+    def csv_quoted(e):
+        # '"' + X.replace('"', '""') + '"': wrapped in quotes with the embedded quotes doubled
+        parts = []
+
+        def flat(x):
+            if isinstance(x, ast.BinOp) and isinstance(x.op, ast.Add):
+                flat(x.left)
+                flat(x.right)
+            else:
+                parts.append(x)
+        flat(e)
+        if isinstance(e, ast.JoinedStr):
+            parts = list(e.values)
+            parts = [p_.value if isinstance(p_, ast.FormattedValue) else p_ for p_ in parts]
+        if len(parts) < 3:
+            return False
+        q = [isinstance(p_, ast.Constant) and p_.value == '"' for p_ in (parts[0], parts[-1])]
+        mid = parts[1:-1]
+        doubled = all(any(isinstance(c_, ast.Call) and call_name(c_) == 'replace' and len(c_.args) == 2
+                          and isinstance(c_.args[0], ast.Constant) and c_.args[0].value == '"'
+                          and isinstance(c_.args[1], ast.Constant) and c_.args[1].value == '""' for c_ in ast.walk(p_))
+                      for p_ in mid)
+        return all(q) and doubled
+    # helpers that quote: nested functions, methods of the class or functions of the module whose returned expression
+    # has that shape (decided from the body, not from the helper's name)
+    cands = {n.name: n for n in ast.walk(smf.node) if isinstance(n, ast.FunctionDef) and n is not smf.node}
+    cands.update({k: v.node for k, v in lc.methods.items()})
+    cands.update({k: v.node for k, v in lc.module.functions.items() if v.cls is None and v.parent is None})
+    helpers = set()
+    for hn, hnode in cands.items():
+        rets = [r.value for r in ast.walk(hnode) if isinstance(r, ast.Return) and r.value is not None]
+        if len(rets) == 1 and csv_quoted(rets[0]):
+            helpers.add(hn)
     rows = [c for c in ast.walk(smf.node) if isinstance(c, ast.Call) and call_name(c) in ('write', 'writelines', 'writerow')]
     if not rows:
         raise AnalysisError('store_message: no write call found')
@@ -542,7 +573,8 @@ def run(chk, repo, tier):
             for fv in [v for v in js.values if isinstance(v, ast.FormattedValue)]:
                 e = fv.value
                 free = names(e) & str_params
-                quoted = isinstance(e, ast.Call) and (call_name(e) in helpers or call_name(e) in ('dumps',))
+                quoted = (isinstance(e, ast.Call) and (call_name(e) in helpers or call_name(e) in ('dumps',))) \
+                    or csv_quoted(e)
                 chk.instance(K6, f'store_message field {{{unparse(e)}}}: free text={bool(free)} quoted={quoted}')
                 if free and not quoted:
                     chk.violation(K6, crel, smf.qualname, '{' + unparse(e) + '} unquoted in ' + unparse(js)[:80],
@@ -573,29 +605,75 @@ def run(chk, repo, tier):
 
 
 def _record_tests(fn):
-    """tests inside `for line in ...` loops that mention the parameter `name`"""
+    """tests that select a record by the parameter `name`: `if` tests, conditional expressions and comprehension filters
+    that mention it (inside `for line in ...` loops, in comprehensions, or as membership tests on the stored names)"""
     out = []
-    for loop in [n for n in walk_no_nested(fn) if isinstance(n, ast.For)]:
-        for n in ast.walk(loop):
-            if isinstance(n, ast.If) and 'name' in names(n.test):
-                out.append(n.test)
+    for n in ast.walk(fn):
+        ts = []
+        if isinstance(n, (ast.If, ast.IfExp)):
+            ts = [n.test]
+        elif isinstance(n, ast.comprehension):
+            ts = list(n.ifs)
+        for t in ts:
+            if 'name' in names(t) and not (isinstance(t, ast.Compare) and isinstance(t.ops[0], (ast.Is, ast.IsNot))):
+                out.append(t)
     return out
 
 
+def _first_field(e, fn, depth=4):
+    """e denotes the first field of a stored line: `line.split(sep, 1)[0]` (directly, through a local, or as the loop /
+    comprehension variable over a list of such values, also zipped)"""
+    if depth == 0:
+        return False
+    if isinstance(e, ast.Subscript) and isinstance(e.slice, ast.Constant) and e.slice.value == 0:
+        v = e.value
+        if isinstance(v, ast.Name):
+            v = _def_of(fn, v.id)
+        return isinstance(v, ast.Call) and isinstance(v.func, ast.Attribute) and v.func.attr in ('split', 'partition')
+    if isinstance(e, ast.Name):
+        d = _def_of(fn, e.id)
+        if d is not None and _first_field(d, fn, depth - 1):
+            return True
+        # variable of a loop / comprehension over a collection of first fields
+        for n in ast.walk(fn):
+            if isinstance(n, (ast.comprehension, ast.For)):
+                tg, it = n.target, n.iter
+                if isinstance(tg, ast.Name) and tg.id == e.id and _first_fields(it, fn, depth - 1):
+                    return True
+                if isinstance(tg, ast.Tuple) and isinstance(it, ast.Call) and call_name(it) == 'zip' \
+                        and len(tg.elts) == len(it.args):
+                    for t_, a_ in zip(tg.elts, it.args):
+                        if isinstance(t_, ast.Name) and t_.id == e.id and _first_fields(a_, fn, depth - 1):
+                            return True
+    return False
+
+
+def _first_fields(e, fn, depth=4):
+    """e is a collection of first fields: `[line.split(' ', 1)[0] for line in ...]` (or a local bound to one)"""
+    if depth == 0:
+        return False
+    if isinstance(e, ast.Name):
+        d = _def_of(fn, e.id)
+        return d is not None and _first_fields(d, fn, depth - 1)
+    if isinstance(e, (ast.ListComp, ast.SetComp, ast.GeneratorExp)):
+        return _first_field(e.elt, fn, depth - 1)
+    if isinstance(e, ast.Call) and call_name(e) in ('list', 'set', 'tuple', 'frozenset') and len(e.args) == 1:
+        return _first_fields(e.args[0], fn, depth - 1)
+    return False
+
+
 def _is_first_field_eq(test, fn):
-    """`X[0] == name` where X is bound to `line.split(<sep>, 1)` (either operand order)"""
-    if not (isinstance(test, ast.Compare) and len(test.ops) == 1 and isinstance(test.ops[0], ast.Eq)):
+    """`<first field> == name` (either operand order, also !=), or `name in / not in <collection of first fields>`"""
+    if not (isinstance(test, ast.Compare) and len(test.ops) == 1):
         return False
     sides = [test.left, test.comparators[0]]
-    nm = [s_ for s_ in sides if isinstance(s_, ast.Name) and s_.id == 'name']
-    sub = [s_ for s_ in sides if isinstance(s_, ast.Subscript) and isinstance(s_.slice, ast.Constant)
-           and s_.slice.value == 0]
-    if not (nm and sub):
-        return False
-    v = sub[0].value
-    if isinstance(v, ast.Name):
-        v = _def_of(fn, v.id)
-    return isinstance(v, ast.Call) and isinstance(v.func, ast.Attribute) and v.func.attr in ('split', 'partition')
+    if isinstance(test.ops[0], (ast.Eq, ast.NotEq)):
+        nm = [s_ for s_ in sides if isinstance(s_, ast.Name) and s_.id == 'name']
+        other = [s_ for s_ in sides if not (isinstance(s_, ast.Name) and s_.id == 'name')]
+        return bool(nm) and len(other) == 1 and _first_field(other[0], fn)
+    if isinstance(test.ops[0], (ast.In, ast.NotIn)):
+        return isinstance(sides[0], ast.Name) and sides[0].id == 'name' and _first_fields(sides[1], fn)
+    return False
 
 
 def _def_of(fn, name):
